@@ -59,7 +59,9 @@ extern int kv_rep_tab[KV_MAXKEYS + 2];      /* key index -> representative of it
 void kv_set_classes(const kcfg_t *c);
 
 /* value size classes */
-enum { VS_EMPTY = 0, VS_SHORT = 1, VS_1K = 2, VS_70K = 3, VS_1M = 4 };
+/* VS_TAIL: a put of this size to a 1-byte key into a fresh log ends the log 3 bytes before a 32 KiB block
+ * boundary (0-byte key: 4, 2-byte key: 2): no room for a record header in the block when the log is reused */
+enum { VS_EMPTY = 0, VS_SHORT = 1, VS_1K = 2, VS_70K = 3, VS_1M = 4, VS_TAIL = 5, VS_MAX = 5 };
 size_t kv_vlen(int sz);
 void kv_vgen(unsigned char *buf, int vid, int sz);   /* fills kv_vlen(sz) bytes */
 int kv_vcheck(const void *data, size_t len, int vid, int sz); /* 1 if equal */
